@@ -1,5 +1,7 @@
 pub mod app;
 pub mod drive;
 pub mod gen_app;
+pub mod echo;
 pub mod gen_req;
 pub mod hex;
+pub mod sock;
